@@ -907,7 +907,9 @@ class RTCSctpTransport(AsyncIOEventEmitter):
         # is this an init?
         init_chunk = len([x for x in chunks if isinstance(x, InitChunk)])
         if init_chunk:
-            assert len(chunks) == 1
+            if len(chunks) != 1:
+                # an INIT chunk must not be bundled with other chunks
+                return
             expected_tag = 0
         else:
             expected_tag = self._local_verification_tag
@@ -1853,7 +1855,9 @@ class RTCSctpTransport(AsyncIOEventEmitter):
             msg_type = data[0]
             if msg_type == DATA_CHANNEL_OPEN and len(data) >= 12:
                 # we should not receive an open for an existing channel
-                assert stream_id not in self._data_channels
+                if stream_id in self._data_channels:
+                    self.__log_debug("x DATA_CHANNEL_OPEN for an existing channel")
+                    return
 
                 (
                     msg_type,
@@ -1864,9 +1868,13 @@ class RTCSctpTransport(AsyncIOEventEmitter):
                     protocol_length,
                 ) = unpack_from("!BBHLHH", data)
                 pos = 12
-                label = data[pos : pos + label_length].decode("utf8")
-                pos += label_length
-                protocol = data[pos : pos + protocol_length].decode("utf8")
+                try:
+                    label = data[pos : pos + label_length].decode("utf8")
+                    pos += label_length
+                    protocol = data[pos : pos + protocol_length].decode("utf8")
+                except UnicodeDecodeError:
+                    self.__log_debug("x DATA_CHANNEL_OPEN is not valid UTF-8")
+                    return
 
                 # check channel type
                 maxPacketLifeTime = None
@@ -1898,13 +1906,17 @@ class RTCSctpTransport(AsyncIOEventEmitter):
                 # emit channel
                 self.emit("datachannel", channel)
             elif msg_type == DATA_CHANNEL_ACK:
-                assert stream_id in self._data_channels
-                channel = self._data_channels[stream_id]
-                if channel.readyState == "connecting":
+                channel = self._data_channels.get(stream_id)
+                if channel is not None and channel.readyState == "connecting":
                     channel._setReadyState("open")
         elif pp_id == WEBRTC_STRING and stream_id in self._data_channels:
             # emit message
-            self._data_channels[stream_id].emit("message", data.decode("utf8"))
+            try:
+                message = data.decode("utf8")
+            except UnicodeDecodeError:
+                self.__log_debug("x string message is not valid UTF-8")
+                return
+            self._data_channels[stream_id].emit("message", message)
         elif pp_id == WEBRTC_STRING_EMPTY and stream_id in self._data_channels:
             # emit message
             self._data_channels[stream_id].emit("message", "")
